@@ -1168,6 +1168,13 @@ pub(crate) fn verify_mmr_proof<'a, T: Iterator<Item = &'a HeaderView>>(
         return Err(StatusCode::InvalidProof.with_context(errmsg));
     };
     let parent_chain_root = last_header.parent_chain_root();
+    // The numbers in the chain root and in the proof are supplied by the peer, and the MMR
+    // library does arithmetic on them without checks.
+    let end_number: BlockNumber = parent_chain_root.end_number().unpack();
+    if end_number == BlockNumber::MAX {
+        let errmsg = "failed to verify the proof since the end number of the chain root overflows";
+        return Err(StatusCode::InvalidProof.with_context(errmsg));
+    }
     let proof: MMRProof = {
         let mmr_size = leaf_index_to_mmr_size(parent_chain_root.end_number().unpack());
         let proof = raw_proof
@@ -1181,6 +1188,9 @@ pub(crate) fn verify_mmr_proof<'a, T: Iterator<Item = &'a HeaderView>>(
         let res = headers
             .map(|header| {
                 let index = header.number();
+                if index > end_number {
+                    return Err(format!("block#{} is not in the chain root", index));
+                }
                 let position = leaf_index_to_pos(index);
                 let digest = header.digest();
                 digest.verify()?;
@@ -1195,6 +1205,24 @@ pub(crate) fn verify_mmr_proof<'a, T: Iterator<Item = &'a HeaderView>>(
             }
         }
     };
+    {
+        let mut total_difficulty = Some(U256::zero());
+        let mut is_sane = true;
+        for digest in raw_proof
+            .iter()
+            .map(|digest| digest.to_entity())
+            .chain(digests_with_positions.iter().map(|(_, digest)| digest.clone()))
+        {
+            let digest_end_number: BlockNumber = digest.end_number().unpack();
+            is_sane = is_sane && digest_end_number <= end_number;
+            total_difficulty = total_difficulty
+                .and_then(|sum| sum.checked_add(&digest.total_difficulty().unpack()));
+        }
+        if !is_sane || total_difficulty.is_none() {
+            let errmsg = "failed to verify the proof since the numbers in it overflow";
+            return Err(StatusCode::InvalidProof.with_context(errmsg));
+        }
+    }
     let verify_result = match proof.verify(parent_chain_root, digests_with_positions) {
         Ok(verify_result) => verify_result,
         Err(err) => {
